@@ -6,6 +6,10 @@ BASE = "cd /repo && /venv/bin/python -m pytest -ra -q -p no:cacheprovider --time
 
 # id -> (engine, level, technique, level text, level note, design ref)
 CHECKS = {
+ "C06": ("LX", "exploration",
+         "bounded-exhaustive enumeration: arms x all structural histories (move / tool change / restore, length <= 2) x joint-vector palette x complete rate and wrench bases; Jacobians compared with Richardson differences of the library's FK and with an independent product-of-exponentials reference",
+         "At each of 31 structurally distinct states per arm and 4-5 joint vectors: space Jacobian = derivative of FK (Richardson, steps 1e-4/2e-4, 1e-6 relative), body / link (every index) / tool-aligned / numerical variants after the change of frame, velocity = J qd, statics = J^T F with power balance on the complete bases, inverse statics where sigma_min >= 0.05, link-weight moments on arms with inertial data.",
+         "Finite palettes of joint vectors and histories of length <= 2; linear maps are decided on complete bases. Link masses/centres are taken from the loaded arm as data.", "DESIGN 4/C06"),
  "C05": ("HX", "model_checking",
          "explicit-state BFS over operation histories of real Arm objects paired with a product-of-exponentials reference model; solver answers are environment answers; from-scratch replay of every state's history",
          "Per arm (6 quick / 14 thorough: 6R test arm at identity and at a base, bundled URDF arms, generated 1-7 joint chains incl. prismatic) every history of length <= 2 (quick) / <= 3 (thorough) over a 22-operation alphabet {FK x7, IK x6, move x3, setArbitraryHome x3, restoreOriginalEE, randomPos x2} is executed; after every transition base pose, reported tool pose, joint state, joint frames and defaulted-argument queries are compared with base*PoE*home.",
